@@ -237,7 +237,7 @@ pub fn match_record_sel(
     _ => {
       // the pattern was refused: for a pattern cut from this very node that is an outcome, not a reason to skip it
       let rt = rt?;
-      let no = json!({"ok": false, "panic": false, "single": {}, "multi": {}, "len": -1});
+      let no = json!({"ok": false, "panic": false, "single": {}, "multi": {}, "len": -1, "yaml": -1});
       let mut rec = json!({
         "id": id, "lang": util::lang_name(lang), "pattern": pattern_text, "cand": cand.text().chars().take(300).collect::<String>(),
         "PT": rt.clone(), "RT": rt, "nopat": true, "T": slim_table(&p, cand.root().get_text()),
@@ -255,7 +255,21 @@ pub fn match_record_sel(
   let mut outs = Map::new();
   for lv in LEVELS {
     let pat = base.clone().with_strictness(strictness(lv));
-    outs.insert(lv.to_string(), outcome(&pat, cand, &p));
+    let mut o = outcome(&pat, cand, &p);
+    // the same pattern written as the pattern OBJECT of a rule (context, selector, strictness): the rule loader builds
+    // its own Pattern from the three keys; 1 = it matches the candidate, 0 = it does not, -1 = not built
+    let mut obj = json!({"context": pattern_text, "strictness": lv});
+    if let Some((kind, _)) = selector {
+      obj["selector"] = json!(kind);
+    }
+    let via_rule = catch_unwind(AssertUnwindSafe(|| {
+      let ser: ast_grep_config::SerializableRule = ast_grep_config::from_str(&json!({"pattern": obj}).to_string()).ok()?;
+      let rule = ast_grep_config::DeserializeEnv::new(lang).deserialize_rule(ser).ok()?;
+      let mut env = std::borrow::Cow::Owned(ast_grep_core::meta_var::MetaVarEnv::new());
+      Some(ast_grep_core::Matcher::match_node_with_env(&rule, cand.clone(), &mut env).is_some())
+    }));
+    o["yaml"] = json!(match via_rule { Ok(Some(true)) => 1, Ok(Some(false)) => 0, _ => -1 });
+    outs.insert(lv.to_string(), o);
   }
   let mut rec = json!({
     "id": id, "lang": util::lang_name(lang), "pattern": pattern_text,
